@@ -56,6 +56,10 @@ FAULTS = {
     'ltinput': ('A \\LTinput{/nonexistent/q.tex} Keep', {}, 2, ['Keep']),
     'after_empty_ltinput': ('\\LTinput{/verif/vf/data/empty.tex}A \\LTadd{Keep Also', {}, 42, ['Keep', 'Also']),
     'after_ltinput_defs': ('\\LTinput{/verif/vf/data/defs_mo.tex}\nA \\mo{x} $y Keep', {}, 46, []),
+    # faults inside an argument that a handler turns into text (\\newtheorem title): only
+    # "a mark never appears without a diagnostic" is demanded (offset None)
+    'newtheorem_title_accent': ('\\newtheorem{thm}{Th\\"1 m}A\n\\begin{thm}\nB\n\\end{thm}', {}, None, []),
+    'newtheorem_title_math': ('\\newtheorem{thm}{Th $x}\n\nA\n\\begin{thm}[N]\nB\n\\end{thm}', {}, None, []),
     'gls': ('A \\gls{nolabel} Keep', {'pack': 'glossaries'}, 2, ['Keep']),
     'def_noname': ('A \\def', {}, 2, []),
     'def_nobody': ('A \\def\\foo#1', {}, 2, []),
@@ -66,9 +70,16 @@ FAULTS = {
 
 def fault_oracle(S, off, keep, twin=False):
     lo, hi = off if isinstance(off, tuple) else (off, off)
+    if off is None:
+        lo = hi = 0
 
     def orc(_S, d, e, doc, flat, diags):
         lab, plain, cm = flat[0]
+        if off is None:
+            if (MARK in plain) != bool(diags) and not twin:
+                return 'C08 %d error marks but %d diagnostics for %r' % (plain.count(MARK),
+                                                                         len(diags), doc)
+            return None
         if len(diags) != 1:
             return 'C08 %d diagnostics for one fault in %r: %r' % (len(diags), doc, diags)
         # offset named by the diagnostic
